@@ -36,7 +36,8 @@ from pytools.py_codegen import (
 from dagrt.codegen.codegen_base import StructuredCodeGenerator
 from dagrt.codegen.expressions import PythonExpressionMapper
 from dagrt.codegen.utils import (
-    KeyToUniqueNameMap, exec_in_new_namespace, wrap_line_base)
+    KeyToUniqueNameMap, exec_in_new_namespace, make_function_identifier_from_name,
+    wrap_line_base)
 from dagrt.utils import is_state_variable
 
 
@@ -185,7 +186,9 @@ class PythonNameManager:
         self._global_map = KeyToUniqueNameMap(forced_prefix="self.global_",
                                               start={"<t>": "self.t",
                                                      "<dt>": "self.dt"})
-        self.function_map = KeyToUniqueNameMap(forced_prefix="self._functions.")
+        self.function_map = KeyToUniqueNameMap(
+                forced_prefix="self._functions.",
+                key_translate_func=make_function_identifier_from_name)
 
     def name_global(self, name):
         """Return the identifier for a global variable."""
